@@ -29,6 +29,7 @@ func init() {
 	ruleText["R06.4"] = "in the unwinding function: recovered = recover() dominates the loop over deferred records, which dominates the conditional panic(recovered); the recover builtin reads and clears frame.anc.recovered"
 	ruleText["R06.7"] = "the unwinding loop invokes each deferred record through a function that has its own deferred, non-re-panicking recover, so that a panic in one deferred call does not skip the others"
 	ruleText["R06.6"] = "same analysis as C01/R01.4: copyNode copies or re-initialises every node field the AST builder sets, so that defer/recover/panic statements inside instantiated generic functions are compiled like the same statements elsewhere"
+	ruleText["R06.8"] = "same analysis as C01/R01.8 on the generator of recover: every path of its run-time closure that continues execution stores the call's result, so a recover() executed again in the same activation does not yield the previous panic value"
 	ruleText["R06.5"] = "a converting recover assigns Panic{Value: <recovered>, ...} to the error result of its function"
 }
 
@@ -51,6 +52,9 @@ func runC06(c *Config, r *Report) {
 		r.add(o)
 	}
 	r.Errors = append(r.Errors, sub.Errors...)
+	// R06.8: recover() yields nil when no panic is in progress, also the second time the same
+	// call is executed in an activation (same analysis as C01/R01.8, on the recover generator).
+	c01R8(ic, r, "R06.8", map[string]bool{"_recover": true})
 }
 
 func c06R1(ic *IC, r *Report) {
